@@ -11,6 +11,7 @@ import (
 	"math/big"
 	"math/rand"
 	"os"
+	"strconv"
 	"runtime/debug"
 	"time"
 )
@@ -207,3 +208,12 @@ func ToLE(x *big.Int, n int) []byte {
 
 // Quot returns floor(a / p) as digits: the untrusted hint TLC uses to check a congruence.
 func Quot(a, p *big.Int) []int { return Digits(new(big.Int).Div(a, p)) }
+
+// Bad reports a panic or a timeout.
+func (o Outcome) Bad() bool { return o.Panic != "" || o.Timeout }
+
+// EnvSeed is the seed the check passed in VERIF_SEED (0 if absent).
+func EnvSeed() int64 {
+	s, _ := strconv.ParseInt(os.Getenv("VERIF_SEED"), 10, 64)
+	return s
+}
